@@ -545,3 +545,104 @@ package rlwe
 //@   trusted the integer value of a scale is a function of its contents (uf_scale64 names it)
 //@   assigns
 //@   ensures result == uf_scale64(contentid(s))
+
+// A decoder stores what it decodes in the caller's object (C08; finding F41): see /verif/cmd/lvc/fieldordercheck.go
+//@ decodes CiphertextMetaData.ReadFrom
+//@   property C08
+//
+//@ decodes CiphertextMetaData.UnmarshalBinary
+//@   property C08
+//
+//@ decodes CiphertextMetaData.UnmarshalJSON
+//@   property C08
+//
+//@ decodes Element.ReadFrom
+//@   property C08
+//
+//@ decodes Element.UnmarshalBinary
+//@   property C08
+//
+//@ decodes EvaluationKey.ReadFrom
+//@   property C08
+//
+//@ decodes EvaluationKey.UnmarshalBinary
+//@   property C08
+//
+//@ decodes GadgetCiphertext.ReadFrom
+//@   property C08
+//
+//@ decodes GadgetCiphertext.UnmarshalBinary
+//@   property C08
+//
+//@ decodes GaloisKey.ReadFrom
+//@   property C08
+//
+//@ decodes GaloisKey.UnmarshalBinary
+//@   property C08
+//
+//@ decodes MemEvaluationKeySet.ReadFrom
+//@   property C08
+//
+//@ decodes MemEvaluationKeySet.UnmarshalBinary
+//@   property C08
+//
+//@ decodes MetaData.ReadFrom
+//@   property C08
+//
+//@ decodes MetaData.UnmarshalBinary
+//@   property C08
+//
+//@ decodes MetaData.UnmarshalJSON
+//@   property C08
+//
+//@ decodes Parameters.ReadFrom
+//@   property C08
+//
+//@ decodes Parameters.UnmarshalBinary
+//@   property C08
+//
+//@ decodes Parameters.UnmarshalJSON
+//@   property C08
+//
+//@ decodes ParametersLiteral.UnmarshalJSON
+//@   property C08
+//
+//@ decodes Plaintext.ReadFrom
+//@   property C08
+//
+//@ decodes Plaintext.UnmarshalBinary
+//@   property C08
+//
+//@ decodes PlaintextMetaData.ReadFrom
+//@   property C08
+//
+//@ decodes PlaintextMetaData.UnmarshalBinary
+//@   property C08
+//
+//@ decodes PlaintextMetaData.UnmarshalJSON
+//@   property C08
+//
+//@ decodes PublicKey.ReadFrom
+//@   property C08
+//
+//@ decodes PublicKey.UnmarshalBinary
+//@   property C08
+//
+//@ decodes Scale.UnmarshalBinary
+//@   property C08
+//
+//@ decodes Scale.UnmarshalJSON
+//@   property C08
+//
+//@ decodes SecretKey.ReadFrom
+//@   property C08
+//
+//@ decodes SecretKey.UnmarshalBinary
+//@   property C08
+//
+//@ decodes VectorQP.ReadFrom
+//@   property C08
+//
+//@ decodes VectorQP.UnmarshalBinary
+//@   property C08
+//
